@@ -196,7 +196,7 @@ func c09(c *core.Check) {
 	}
 	r1.Cond(len(singles) >= 8 && len(outsides) == 2 && len(insides) == 5, "display vocabulary extracted", p.Pos(vd.Pos()), fmt.Sprintf("%d single keywords, outside %v, inside %v", len(singles), outsides, insides), fmt.Sprintf("unexpected vocabulary: singles=%v outside=%v inside=%v", singles, outsides, insides))
 
-	r2 := c.Rule("R2", "CreateAnonymousBox runs AnonymousTableBoxes, then FlexBoxes and GridBoxes, then InlineInBlock, then BlockInInline", 4)
+	r2 := c.Rule("R2", "CreateAnonymousBox runs AnonymousTableBoxes, then FlexBoxes and GridBoxes, then InlineInBlock, then BlockInInline", 2)
 	if cab := p.Fn("html/boxes", "CreateAnonymousBox"); cab != nil {
 		callChainOrder(c, r2, cab, []string{"AnonymousTableBoxes", "FlexBoxes", "GridBoxes", "InlineInBlock", "BlockInInline"}, "CreateAnonymousBox")
 	} else {
@@ -204,7 +204,7 @@ func c09(c *core.Check) {
 	}
 
 	// ---- R3 the item fix-ups apply to both the block-level and the inline-level container
-	r3 := c.Rule("R3", "flexChildren and gridChildren treat the children of every flex (resp. grid) container, block-level or inline-level: the class they test at entry is implemented by both box types", 4)
+	r3 := c.Rule("R3", "flexChildren and gridChildren treat the children of every flex (resp. grid) container, block-level or inline-level: the class they test at entry is implemented by both box types", 2)
 	classOf := c09ClassInterfaces(p)
 	for _, fx := range []struct {
 		fn    string
@@ -257,7 +257,7 @@ func c09(c *core.Check) {
 	}
 
 	// ---- R4 display: none generates nothing
-	r4 := c.Rule("R4", "elementToBox returns before creating any box, touching the style or recording a footnote when the element's display is none: every call of makeBox, SetDisplay, SetFloat and every recursive call is unreachable when the test display == none holds", 6)
+	r4 := c.Rule("R4", "elementToBox returns before creating any box, touching the style or recording a footnote when the element's display is none: every call of makeBox, SetDisplay, SetFloat and every recursive call is unreachable when the test display == none holds", 5)
 	if etb := p.Fn("html/boxes", "elementToBox"); etb == nil {
 		r4.Anchor("html/boxes.elementToBox")
 	} else {
@@ -319,7 +319,7 @@ func c09(c *core.Check) {
 	c09Spans(c)
 	r6 := c.Rule("R6", "no call passes two same-typed arguments under each other's parameter names (swapped arguments): every pair of arguments named after the callee's parameters is aligned with them", 8)
 	argNameRule(c, r6, "html/boxes", nil, 7)
-	r7 := c.Rule("R7", "table wrapping gives every cell its own grid slot: GridX is the cursor after skipping (in a loop) the columns occupied by cells spanning from previous rows, the cursor advances by Colspan, Rowspan is clamped to the rows left in the group and the spanned rows mark exactly the cell's columns", 5)
+	r7 := c.Rule("R7", "table wrapping gives every cell its own grid slot: GridX is the cursor after skipping (in a loop) the columns occupied by cells spanning from previous rows, the cursor advances by Colspan, Rowspan is clamped to the rows left in the group and the spanned rows mark exactly the cell's columns", 3)
 	tableSlotRule(c, r7)
 	c09ClassTests(c)
 	c09Accumulators(c)
@@ -330,7 +330,7 @@ func c09(c *core.Check) {
 
 // c09Spans: a table cell spans at least one column (HTML 5: colspan is clamped to >= 1), while rowspan may be 0.
 func c09Spans(c *core.Check) {
-	r := c.Rule("R5", "NewTableCellBox reads colspan within [1, 1000] and rowspan within [0, 65534] (HTML): a cell that spans no column would share its grid slot with the next cell, and the grid is allocated with the spans as sizes", 5)
+	r := c.Rule("R5", "NewTableCellBox reads colspan within [1, 1000] and rowspan within [0, 65534] (HTML): a cell that spans no column would share its grid slot with the next cell, and the grid is allocated with the spans as sizes", 4)
 	spanBounds(c, r)
 }
 
@@ -446,7 +446,7 @@ func wsSites(info *types.Info, body ast.Node) []string {
 func c11(c *core.Check) {
 	p := c.Prog
 	c.Explain = "Thin structural clauses of line breaking: every boolean that classifies a white-space value uses one of the CSS Text classes (collapse spaces, collapse newlines, wrap, no-wrap), site by site as confirmed by reading; the white-space and text-align vocabularies accepted by the validators are all handled by the text style conversion and by layout.textAlign. Widths and break positions are not decided. Also decided: (R6) layout.textAlign folded for all alignment combinations; (R7) no integer comparison of the layout and text code counts a resume offset twice; (R8) the character-wrapping permission of both text engines, by truth table.  (R9) running extrema are compared with the variable they update; (R10) justification offsets of text boxes (fold) and the right limit of an indented first line."
-	r1 := c.Rule("R1", "each test of a white-space value against keywords uses exactly one CSS Text class: collapse-spaces {normal,nowrap,pre-line}, collapse-newlines {normal,nowrap}, wrap {normal,pre-line,pre-wrap}, no-wrap {nowrap,pre}; the sites are those confirmed by reading (per function)", 9)
+	r1 := c.Rule("R1", "each test of a white-space value against keywords uses exactly one CSS Text class: collapse-spaces {normal,nowrap,pre-line}, collapse-newlines {normal,nowrap}, wrap {normal,pre-line,pre-wrap}, no-wrap {nowrap,pre}; the sites are those confirmed by reading (per function)", 7)
 	classes := map[string]string{"normal,nowrap,pre-line": "collapse-spaces", "normal,nowrap": "collapse-newlines", "normal,pre-line,pre-wrap": "wrap", "nowrap,pre": "no-wrap"}
 	// frozen per-function expectation (function → classes of its sites, sorted)
 	expected := map[string][]string{
@@ -561,7 +561,7 @@ func c11(c *core.Check) {
 
 	r3 := c.Rule("R3", "sibling symmetry in inline layout code: two assignments of one block that differ by a side (Top/Bottom, Left/Right) on the left and have the same shape on the right mirror every side name of that axis", 1)
 	sideSymmetryRule(c, r3, "html/layout", map[string]bool{"inline.go": true, "leader.go": true}, 1)
-	r4 := c.Rule("R4", "box-edge sums of the inline layout code mention margin, padding and border with the same sides", 6)
+	r4 := c.Rule("R4", "box-edge sums of the inline layout code mention margin, padding and border with the same sides", 5)
 	sideSumRule(c, r4, "html/layout", map[string]bool{"inline.go": true, "leader.go": true}, 5)
 	r5 := c.Rule("R5", "no call passes two same-typed arguments under each other's parameter names (swapped arguments): every pair of arguments named after the callee's parameters is aligned with them", 46)
 	argNameRule(c, r5, "html/layout", map[string]bool{"inline.go": true, "leader.go": true}, 40)
@@ -701,7 +701,7 @@ func c12(c *core.Check) {
 	r2 := c.Rule("R2", "tree.pageTypeMatch divides and takes the remainder by the :nth() step only where it is proven non-zero", 2)
 	divisionRule(c, r2, func(fn *ssa.Function) bool { return fn.Name() == "pageTypeMatch" && inPkgs("html/tree")(fn) })
 
-	r3 := c.Rule("R3", "box-edge sums of the fragmentation code (the space kept at the bottom of a page for paddings and borders, page margins) mention margin, padding and border with the same sides", 6)
+	r3 := c.Rule("R3", "box-edge sums of the fragmentation code (the space kept at the bottom of a page for paddings and borders, page margins) mention margin, padding and border with the same sides", 5)
 	sideSumRule(c, r3, "html/layout", map[string]bool{"blocks.go": true, "pages.go": true, "columns.go": true}, 7)
 	c12PageBox(c)
 	c12Orphans(c)
@@ -715,7 +715,7 @@ func c12(c *core.Check) {
 // c09ClassTests: the box classes tested by the anonymous-box passes are the classes the CSS rules name.
 func c09ClassTests(c *core.Check) {
 	p := c.Prog
-	r := c.Rule("R8", "the anonymous-box passes test the box classes CSS 2.1 names: an inline box is split around every in-flow block-level child (§9.2.1.1: the class is block-level, not block), inline-level children of a block container are wrapped in line boxes (§9.2.2.1), and the table fix-ups test table, row group, row, cell, column and inline boxes as §17.2.1 lists them", 4)
+	r := c.Rule("R8", "the anonymous-box passes test the box classes CSS 2.1 names: an inline box is split around every in-flow block-level child (§9.2.1.1: the class is block-level, not block), inline-level children of a block container are wrapped in line boxes (§9.2.2.1), and the table fix-ups test table, row group, row, cell, column and inline boxes as §17.2.1 lists them", 2)
 	want := map[string][]string{
 		"innerBlockInInline": {"BlockLevelT", "InlineT"},
 		"InlineInBlock":      {"BlockContainerT", "InlineLevelT", "LineT"},
@@ -794,7 +794,7 @@ func c09ClassTests(c *core.Check) {
 // c09Accumulators: a list handed to a box that keeps it is not reused as a buffer.
 func c09Accumulators(c *core.Check) {
 	p := c.Prog
-	r := c.Rule("R9", "box children are not shared with a buffer: in the box-building passes, a slice variable that was handed to a constructor which keeps it as the children of a box is never emptied by re-slicing (`x = x[:0]`) and filled again — the next run of boxes would overwrite the children of the box just built", 3)
+	r := c.Rule("R9", "box children are not shared with a buffer: in the box-building passes, a slice variable that was handed to a constructor which keeps it as the children of a box is never emptied by re-slicing (`x = x[:0]`) and filled again — the next run of boxes would overwrite the children of the box just built", 1)
 	retains := p.Retains()
 	n := 0
 	for _, pkg := range []string{"html/boxes", "html/layout"} {
